@@ -5,7 +5,8 @@
    obs = <variant r|f|t>/<type>/<tailhex>/<ok/<n>/<packet> | err/<n> | panic>
    x3 <b0b1> <256 tokens kind n , detect length>
 
-   propfail <id> no_panic | consumed | spec_equiv | local | local_connect | detect_agrees ...
+   obs for packet.Decoder: s/<limit>/<tailhex>/<first Read>/<next Read>, a Read being p=<packet> | e=<kind> | panic | -
+   propfail <id> no_panic | consumed | spec_equiv | local | local_connect | detect_agrees | detect_view | stream_read ...
        the implementation's observed behaviour violates that clause of C02 on this input
    diff <id> ...    model and implementation differ on something the clauses do not fix *)
 open Conv
@@ -34,6 +35,33 @@ let ref_res t buf = match RefDecode.ref_decode t buf with
   | Some (p, n) -> Some (int_of_n n, s_of_packet p)
   | None -> None
 
+let s_of_derr = function
+  | Stream.EEof -> "eof" | Stream.EUnexpectedEof -> "ueof" | Stream.EDetectionOverflow -> "detov"
+  | Stream.EReadLimit -> "limit" | Stream.EInvalidType -> "badtype" | Stream.EDecode -> "decode"
+  | Stream.ESource _ -> "src" | Stream.EOutOfFuel -> "fuel"
+(* ReadSpec.read_spec: what one Decoder.Read must return, and what is left of the stream *)
+let spec_read lim bs =
+  match ReadSpec.read_spec (n_of_int lim) bs Stream.SEof with
+  | (((Stream.RPacket (_, p), _), _), rest) -> ("p=" ^ s_of_packet p, Some rest)
+  | (((Stream.RFail e, _), _), _) -> ("e=" ^ s_of_derr e, None)
+(* the stream decoder's view of a DetectPacket result: positive length and type, or need-more *)
+let s_of_detection = function
+  | Stream.DetNeedMore -> "needmore"
+  | Stream.DetLen (l, t) -> string_of_n l ^ "," ^ string_of_n t
+
+(* clause forwardable (WF.forwardable, evaluated): an admitted application message, re-published at
+   every QoS up to its own with an id valid for that QoS, is a well-formed packet (which the encoder
+   side proves encodable) *)
+let forward_ok (m : Packet.message) : bool =
+  let q0 = int_of_n m.Packet.m_qos in
+  let rec go q = q > q0 || q > 2 ||
+    (WF.wf (Packet.Publish (false, { m with Packet.m_qos = n_of_int q }, n_of_int (if q = 0 then 0 else 65535))) && go (q + 1)) in
+  go 0 && q0 <= 2
+let admitted_messages (p : Packet.packet) : Packet.message list = match p with
+  | Packet.Publish (_, m, _) -> [m]
+  | Packet.Connect c -> (match c.Packet.c_will with Some m -> [m] | None -> [])
+  | _ -> []
+
 let rec take n l = if n <= 0 then [] else match l with [] -> [] | x :: r -> x :: take (n - 1) r
 
 let run path =
@@ -58,7 +86,17 @@ let run path =
       incr cases;
       let idet = S.sub det 4 (S.length det - 4) in
       if idet = "panic" then fail "propfail" id "no_panic DetectPacket panicked input=%s" hex
-      else if mdet <> idet then begin
+      else begin
+        (* clause detect_view: what Decoder.Read makes of the answer (positive length and type, or
+           "need more") is Stream.detect_impl, the arithmetic statement of DetectPacket *)
+        let view = (match S.split_on_char ',' idet with
+          | [l; t] -> let z = Z.of_string l in
+            if Z.gt z Z.zero then l ^ "," ^ t else "needmore"
+          | _ -> "bad") in
+        let want = s_of_detection (Stream.detect_impl input) in
+        if view <> want then fail "propfail" id "detect_view impl=%s spec=%s input=%s" idet want hex
+      end;
+      if idet <> "panic" && mdet <> idet then begin
         (* detect_agrees: for a valid type nibble and a varint of at most 4 bytes the reported length is the extent *)
         let tn = (match input with b :: _ -> int_of_byte b lsr 4 | [] -> 0) in
         (match ext with
@@ -70,6 +108,26 @@ let run path =
       let framed : (int, res * bool) Hashtbl.t = Hashtbl.create 4 in
       let results = L.map (fun tok ->
         match S.split_on_char '/' tok with
+        | "s" :: lim :: tail :: r1 :: r2 ->
+          (* clause stream_read: packet.Decoder.Read on input ++ tail returns what ReadSpec.read_spec says
+             (packet iff the reference decoder accepts the frame the header declares, else the right error),
+             and the Read after a packet continues exactly behind it *)
+          let lim = int_of_string lim in
+          let bs = input @ bytes_of_hex tail in
+          let r2 = S.concat "/" r2 in
+          incr cases;
+          let (w1, rest) = spec_read lim bs in
+          if r1 = "panic" || r2 = "panic" then
+            fail "propfail" id "no_panic Decoder.Read limit=%d stream=%s" lim (hex_of_bytes bs)
+          else if r1 <> w1 then
+            fail "propfail" id "stream_read limit=%d first impl=%s spec=%s stream=%s" lim r1 w1 (hex_of_bytes bs)
+          else (match rest with
+            | Some rest ->
+              let (w2, _) = spec_read lim rest in
+              if r2 <> w2 then
+                fail "propfail" id "stream_read limit=%d next impl=%s spec=%s stream=%s" lim r2 w2 (hex_of_bytes bs)
+            | None -> ());
+          ("s", 0, [], Panic)
         | v :: ty :: tail :: rest ->
           let t = int_of_string ty in
           let pt = ptype_of_int t in
@@ -95,6 +153,13 @@ let run path =
             (* clause consumed *)
             (match impl with
              | Ok (n, _) | Err n when n > blen || n < 0 -> fail "propfail" id "consumed type=%d n=%d len=%d buf=%s" t n blen bhex
+             | _ -> ());
+            (* clause forwardable, on the packet the implementation returned *)
+            (match impl with
+             | Ok (_, p) when (t = 3 || t = 1) ->
+               (try L.iter (fun m -> if not (forward_ok m) then
+                   fail "propfail" id "forwardable type=%d impl=%s buf=%s" t p bhex) (admitted_messages (packet_of_s p))
+                with Failure _ -> ())
              | _ -> ());
             (* clause spec_equiv: accept iff the reference accepts, same fields, same count.
                CONNECT only on buffers framed to the declared extent *)
